@@ -4,13 +4,43 @@ import json, os
 HERE = os.path.dirname(os.path.abspath(__file__))
 TECH = 'bounded symbolic model checking of the real code: clang-14 IR of /repo -> C (ll2c) -> CBMC 6.11 / kissat; counterexamples replayed natively'
 CHECKS = {
+ 'C01': dict(text='generate_moves (the whole legal move generator as compiled) is executed symbolically on positions with concrete material and symbolic squares, castling rights, '
+             'en-passant square and side; the solver proves that every generated move is legal/canonical/unique and that every legal move of an independent rules reference is '
+             'generated. Bound: the listed material sets and scenario families (en passant with a pinning slider, castling, check evasions).',
+             note='slider_attack<> replaced by its contract (C11); tables dumped from the real init(); rules reference rt/chess_spec.h trusted; material sets outside the list are outside the claim',
+             ref='DESIGN.md 2/C01'),
+ 'C02': dict(text='One symbolic step of Position::do_move from an arbitrary RI-state of the listed material and an arbitrary legal move is proved to produce exactly the placement, side, '
+             'rights, en-passant square, half-move clock and ply the rules prescribe, and to re-establish the representation invariant (board = lists = counts = bitboards), '
+             'so the result extends to move sequences of any length by induction.',
+             note='base case (FEN constructor) is iostream code and not encoded; FEN text formatting not encoded; clocks bounded (hm<=150)', ref='DESIGN.md 2/C02'),
+ 'C03': dict(text='do_move;undo_move and do_null_move;undo_null_move from an arbitrary RI-state restore every field (board, bitboards, counts, piece lists as sets, rights, '
+             'en-passant square, clocks, all five key components, history) for every legal move of the listed material; one step composes to nested sequences by induction.',
+             note='piece lists compared as sets; evaluation/move generation after undo follow from field equality', ref='DESIGN.md 2/C03'),
+ 'C04': dict(text='For every Zobrist table: HashKey::init equals the definition of the key, and every do_move/do_null_move changes each key component by exactly the cells of what '
+             'changed (pawn part only for pawns), hence incremental key = scratch key on every history (induction) and equal positions have equal keys.',
+             note='PIECE_HASH via indicator encoding justified by a syntactic XOR-linearity check on the IR; collision odds of random tables outside the claim', ref='DESIGN.md 2/C04'),
  'C11': dict(text='Every slider lookup (bishop, rook, queen; 64 squares) is proved equal to the ray walk for ALL 2^64 occupancies by the solver, on the tables the '
              'real init() computes; leaper/line/castling tables and shift<>/pawn_attacks are proved equal to their geometric definitions for symbolic squares/bitboards. '
              'No bound other than the fixed trip counts of the reference loops.',
-             note='trusted: clang IR as semantics, ll2c translator (validated differentially), CBMC+kissat, geometric reference c11_spec.h, tables dumped from a g++ -O1 run of the real init()',
+             note='trusted: clang IR as semantics, ll2c translator, CBMC+kissat, geometric reference c11_spec.h, tables dumped from a g++ -O1 run of the real init()',
              ref='DESIGN.md 2/C11'),
+ 'C12': dict(text='The engine\'s KPK win set (bitbase::check after bitbase::normalize on the table built by the real init, and the KPK evaluator for both colours) is proved to be exactly '
+             'the game-theoretic win set by a solver-checked certificate: closure conditions for the won set with a well-founded depth witness and for its complement, for every '
+             'legal position (kings symbolic, pawn square and side per query). Exhaustive in the thorough tier.',
+             note='axiom: safe promotion to Q/R wins; depth witness from an independent retrograde pass is untrusted and only checked', ref='DESIGN.md 2/C12'),
+ 'C13': dict(text='Each of the 17 specialised endgame evaluators (applies + EndgameBase::score through a harness-built vtable) gives the same score for a position with White as strong '
+             'side and for its colour mirror with Black as strong side, for all placements of the listed material and both sides to move.',
+             note='general (non-endgame) evaluator terms not yet covered; endgame::score dispatch loop (std::vector<unique_ptr>) not encoded', ref='DESIGN.md 2/C13'),
+ 'C15': dict(text='move_is_capture, move_is_quiet and move_gives_check are proved to agree with the outcome of playing the move in the rules reference for every legal move '
+             '(promotions, en passant, castling, discovered checks) of every placement of the listed material.',
+             note='slider_attack<> by contract (C11); material bound', ref='DESIGN.md 2/C15'),
+ 'C16': dict(text='Packed Move and MoveInfo encodings decode to the fields they were built from, for all field values (no bound).',
+             note='FEN text and move text (std::string/iostream code) are not covered by this check', ref='DESIGN.md 2/C16'),
 }
-NA = {}
+NA = {
+ 'C17': 'parse_san is std::regex_match on libstdc++\'s regex NFA plus std::optional/smatch; san() builds std::strings through std::vector/std::function filters and a copied Position. '
+        'None of this can be lowered by a hand IR->C translator and CBMC\'s C++ front end cannot parse the headers: solver-based checking of the real code does not apply.',
+}
 def main():
     props = [json.loads(l)['id'] for l in open(os.path.join(HERE, 'properties.jsonl'))]
     man = {
